@@ -184,7 +184,7 @@ func workerC12(thorough bool, shard, nshards int) {
 			}
 			return map[string]any{"z": 0.0, "k": float64(k)}, fmt.Sprintf("map[string]any{z:0,k:%d}", k)
 		}
-		for _, n := range []int{5, 8, 9, 16, 17, 33, 65, 129} {
+		for _, n := range []int{5, 8, 9, 10, 11, 12, 13, 16, 17, 33, 65, 129} {
 			type dup struct{ i, j int }
 			dups := []dup{{-1, -1}, {0, n - 1}, {n - 2, n - 1}, {0, 1}, {n / 2, n/2 + 1}, {1, n - 2}, {2, n - 1}, {3, n / 2}}
 			for _, d := range dups {
@@ -526,8 +526,8 @@ func workerC19(thorough bool, shard, nshards int) {
 		})
 		mk(fmt.Sprintf("Marshal(nested properties {a,b,c} order=%q with Extra, dependencies, $defs)", o), func() *jsonschema.Schema {
 			return &jsonschema.Schema{
-				Properties: map[string]*jsonschema.Schema{"z": {Properties: props("a", "b", "c"), PropertyOrder: o}, "y": {Properties: props("c", "b"), PropertyOrder: []string{"b"}}, "x": {}},
-				Extra:      map[string]any{"x-c": 1.0, "x-a": map[string]any{"k2": 1.0, "k1": 2.0}, "x-b": []any{1.0}},
+				Properties:        map[string]*jsonschema.Schema{"z": {Properties: props("a", "b", "c"), PropertyOrder: o}, "y": {Properties: props("c", "b"), PropertyOrder: []string{"b"}}, "x": {}},
+				Extra:             map[string]any{"x-c": 1.0, "x-a": map[string]any{"k2": 1.0, "k1": 2.0}, "x-b": []any{1.0}},
 				DependencySchemas: map[string]*jsonschema.Schema{"b": {}, "a": {Type: "integer"}}, DependencyStrings: map[string][]string{"d": {"a"}, "c": {"b"}},
 				Defs: map[string]*jsonschema.Schema{"m": {}, "l": {Properties: props("b", "a"), PropertyOrder: o}}, PatternProperties: props("^b", "^a", "^c"),
 				DependentRequired: map[string][]string{"b": {"a"}, "a": {"b"}}, DependentSchemas: props("q", "p"), Vocabulary: map[string]bool{"v2": true, "v1": false},
